@@ -48,15 +48,14 @@ func (check fieldConstraints) checkString(s string, t *meta.Type) error {
 }
 
 func (check fieldConstraints) checkRange(v val.Value, t *meta.Type) error {
-	if len(t.Range()) == 0 {
-		return nil
-	}
+	// a type and the typedefs it derives from each state a range, a derived range
+	// restricts further so the value has to satisfy every one of them
 	for _, r := range t.Range() {
-		if err := r.CheckValue(v); err == nil {
-			return nil
+		if err := r.CheckValue(v); err != nil {
+			return fmt.Errorf("'%s' is outside the required range %s", v, r)
 		}
 	}
-	return fmt.Errorf("'%s' did not match any of the required ranges", v)
+	return nil
 }
 
 func (fieldConstraints) patternCheck(s string, patterns []*meta.Pattern) error {
@@ -72,13 +71,12 @@ func (fieldConstraints) patternCheck(s string, patterns []*meta.Pattern) error {
 }
 
 func (fieldConstraints) lenCheck(s string, lengths []*meta.Range) error {
-	if len(lengths) == 0 {
-		return nil
-	}
+	// like range, every length of the typedef chain applies
+	n := val.Int32(len(s))
 	for _, length := range lengths {
-		if err := length.CheckValue(val.Int32(len(s))); err == nil {
-			return nil
+		if err := length.CheckValue(n); err != nil {
+			return fmt.Errorf("string length outside allowed range %s. %s", length, s)
 		}
 	}
-	return fmt.Errorf("string length outside allowed ranges. %s", s)
+	return nil
 }
